@@ -8,6 +8,7 @@ func init() {
 	vpRegister("VPH_C07_symlink_target", VPH_C07_symlink_target)
 	vpRegister("VPH_C07_readlink", VPH_C07_readlink)
 	vpRegister("VPH_C07_mount", VPH_C07_mount)
+	vpRegister("VPH_C07_symlink_long_target", VPH_C07_symlink_long_target)
 }
 
 // vpValidComponent: non-empty, at most 255 bytes, no '/', '\', NUL, not "." or "..".
@@ -185,6 +186,44 @@ func VPH_C07_symlink_target() {
 		vpReach("refused")
 	}
 	vpLogPathsOK(env.fs, []string{"/", "/d"})
+}
+
+// VPH_C07_symlink_long_target: the same for targets of many components: n ordinary components
+// "a/" (every n up to the bound) followed by up to three arbitrary bytes, so that a ".." can sit at
+// any depth and any rule that stops looking after some number of components or bytes is crossed.
+func VPH_C07_symlink_long_target() {
+	N := 130
+	if vpTier() == 1 {
+		N = 300
+	}
+	fs := vpStdTree()
+	env := vpServer(fs, ExportOptions{})
+	hd := env.handleFor("/d")
+	n := vpChoose("components", 1, N)
+	prefix := make([]byte, 0, 2*n)
+	for i := 0; i < n; i++ {
+		prefix = append(prefix, 'a', '/')
+	}
+	tail := vpStr("tail", vpChoose("taillen", 2, 3))
+	for i := 0; i < len(tail); i++ {
+		vpAssume(tail[i] != 0)
+	}
+	target := string(prefix) + tail
+	var b vpBuf
+	b.fh(hd).str("new").sattr(&vpSattr{}).str(target)
+	env.fs.log = nil
+	rd := &vpRd{b: vpReplyBytes(env.call(NFSPROC3_SYMLINK, b.Bytes()))}
+	st := rd.u32()
+	for _, c := range env.fs.log {
+		if c.op == "Symlink" {
+			vpReach("symlink-created")
+			vpAssert(!vpHasDotDot(c.path2), "long-target-without-dotdot-component")
+			vpAssert(c.path2 == target, "long-target-stored-verbatim")
+		}
+	}
+	if st != NFS_OK {
+		vpReach("refused")
+	}
 }
 
 // VPH_C07_readlink: READLINK never returns a relative target containing "..".
